@@ -87,3 +87,29 @@ MUTANTS += [
     T("c06-twin-guard-as-or", ["C06", "C03"], TC, "z3.Implies(self.task._scheduled, scheduled_assertion)\n            )\n        else:\n            self.set_z3_assertions(scheduled_assertion)\n\n\nclass TaskStartAfter", "z3.Implies(z3.And(self.task._scheduled), scheduled_assertion)\n            )\n        else:\n            self.set_z3_assertions(scheduled_assertion)\n\n\nclass TaskStartAfter"),
     T("c06-twin-flag-first-in-product", ["C06"], OBJ, "task_ends.append(task._end * task._scheduled)", "task_ends.append(task._scheduled * task._end)"),
 ]
+
+FOL = "first_order_logic.py"
+CN = "constraint.py"
+MUTANTS += [
+    # ---- C10 ----------------------------------------------------------------------
+    B("c10-or-builds-and", ["C10"], FOL, "        asst = z3.Or(\n            [\n                z3.And(_get_assertions(constraint))", "        asst = z3.And(\n            [\n                z3.And(_get_assertions(constraint))"),
+    B("c10-or-flattens-operands", ["C10"], FOL, "        asst = z3.Or(\n            [\n                z3.And(_get_assertions(constraint))\n                for constraint in self.list_of_constraints\n            ]\n        )", "        asst = z3.Or(_constraints_to_list_of_assertions(self.list_of_constraints))"),
+    B("c10-and-builds-or", ["C10"], FOL, "asst = z3.And(_constraints_to_list_of_assertions(self.list_of_constraints))", "asst = z3.Or(_constraints_to_list_of_assertions(self.list_of_constraints))"),
+    B("c10-ifthenelse-swapped", ["C10"], FOL, "            z3.And(_constraints_to_list_of_assertions(self.then_list_of_constraints)),\n            z3.And(_constraints_to_list_of_assertions(self.else_list_of_constraints)),", "            z3.And(_constraints_to_list_of_assertions(self.else_list_of_constraints)),\n            z3.And(_constraints_to_list_of_assertions(self.then_list_of_constraints)),"),
+    B("c10-implies-reversed", ["C10"], FOL, "        asst = z3.Implies(\n            self.condition,\n            z3.And(_constraints_to_list_of_assertions(self.list_of_constraints)),\n        )", "        asst = z3.Implies(\n            z3.And(_constraints_to_list_of_assertions(self.list_of_constraints)),\n            self.condition,\n        )"),
+    B("c10-not-dropped", ["C10"], FOL, "asst = z3.Not(z3.And(_get_assertions(self.constraint)))", "asst = z3.And(_get_assertions(self.constraint))"),
+    B("c10-xor-same-operand", ["C10"], FOL, "            z3.And(_get_assertions(self.constraint_1)),\n            z3.And(_get_assertions(self.constraint_2)),", "            z3.And(_get_assertions(self.constraint_1)),\n            z3.And(_get_assertions(self.constraint_1)),"),
+    B("c10-no-tag", ["C10"], FOL, "        constraint.set_created_from_assertion()\n", "        pass\n"),
+    B("c10-tag-method-noop", ["C10"], CN, "        self._created_from_assertion = True\n", "        self._created_from_assertion = False\n"),
+    B("c10-drain-filter-removed", ["C10"], SV, "            for c in self.problem.constraints.values()\n            if not c._created_from_assertion\n", "            for c in self.problem.constraints.values()\n"),
+    B("c10-drain-filter-inverted", ["C10", "C01"], SV, "            if not c._created_from_assertion\n", "            if c._created_from_assertion\n"),
+    B("c10-optional-emits-bare", ["C10"], CN, "            self.append_z3_assertion(z3.Implies(self._applied, list_of_z3_assertions))", "            self.append_z3_assertion(list_of_z3_assertions)"),
+    B("c10-optional-implication-reversed", ["C10"], CN, "z3.Implies(self._applied, list_of_z3_assertions)", "z3.Implies(list_of_z3_assertions, self._applied)"),
+    B("c10-indicator-target-direct", ["C10"], "indicator_constraint.py", "self.set_z3_assertions(self.indicator._indicator_variable == self.value)", "self.append_z3_assertion(self.indicator._indicator_variable == self.value)"),
+    B("c10-expression-negated", ["C10"], CN, "        self.set_z3_assertions(self.expression)", "        self.set_z3_assertions(z3.Not(self.expression))"),
+    B("c10-force-apply-pb", ["C10"], CN, 'problem_function = {"min": z3.PbGe, "max": z3.PbLe, "exact": z3.PbEq}', 'problem_function = {"min": z3.PbLe, "max": z3.PbLe, "exact": z3.PbEq}'),
+    B("c10-force-apply-count-constant", ["C10"], CN, "[(applied, True) for applied in applied_vars], self.nb_constraints_to_apply", "[(applied, True) for applied in applied_vars], 1"),
+    B("c10-force-apply-accepts-mandatory", ["C10", "C18"], CN, "            if not constraint.optional:\n                raise TypeError(", "            if False:\n                raise TypeError("),
+    T("c10-twin-and-via-helper-var", ["C10"], FOL, "        asst = z3.And(_constraints_to_list_of_assertions(self.list_of_constraints))\n", "        operands = _constraints_to_list_of_assertions(self.list_of_constraints)\n        asst = z3.And(operands)\n"),
+    T("c10-twin-not-star", ["C10"], FOL, "asst = z3.Not(z3.And(_get_assertions(self.constraint)))", "inner = _get_assertions(self.constraint)\n        asst = z3.Not(z3.And(inner))"),
+]
